@@ -20,6 +20,9 @@ import sys
 import tempfile
 
 VERIF = os.path.dirname(os.path.dirname(os.path.abspath(__file__)))
+sys.path.insert(0, os.path.join(VERIF, "tools"))
+import scratch  # noqa: E402
+
 REPO = "/repo"
 
 
@@ -67,13 +70,17 @@ def main():
     d = tempfile.mkdtemp(prefix="xtseed-")
     copy = os.path.join(d, "repo")
     meta = {"name": name, "property": pid, "ran": []}
+    targets = []
     try:
         sh(f"git -C {REPO} archive HEAD | (mkdir -p {copy} && tar -x -C {copy})")
-        env = dict(os.environ, CARGO_NET_OFFLINE="true", CARGO_TARGET_DIR=os.path.join(VERIF, ".cache", "target-seedcheck"))
-        env2 = dict(env)
-        # demo without the patch
-        os.environ["CARGO_TARGET_DIR"] = env["CARGO_TARGET_DIR"]
+        t_clean = scratch.fresh_target()
+        t_patched = scratch.fresh_target()
+        targets.extend([t_clean, t_patched])
+        # demo without the patch (its own target directory: no artifact is shared with the patched build)
+        os.environ["CARGO_TARGET_DIR"] = t_clean
         rc0, out0 = run_demo(copy, seed, "clean")
+        os.environ["CARGO_TARGET_DIR"] = t_patched
+        env = dict(os.environ, CARGO_NET_OFFLINE="true", CARGO_TARGET_DIR=t_patched)
         meta["demo_without_patch"] = {"rc": rc0, "tail": out0[-400:]}
         rc, out = sh(f"git apply --whitespace=nowarn {os.path.join(seed, 'patch.diff')} 2>&1 || patch -p1 -s < {os.path.join(seed, 'patch.diff')}", cwd=copy)
         meta["patch_applies"] = rc == 0
@@ -119,6 +126,8 @@ def main():
         return 0 if confirmed else 2
     finally:
         shutil.rmtree(d, ignore_errors=True)
+        for t in targets:
+            shutil.rmtree(t, ignore_errors=True)
 
 
 if __name__ == "__main__":
